@@ -25,6 +25,7 @@ EXPLANATION += ' Added in the third session (round-3 seeds and the findings they
 EXPLANATION += ' Added in the fifth seeding round: ' + 'D4 also: every operation that receives an accessor releases it before lookup() acquires an element lock through it (in the operation or in the helper the accessor is forwarded to; sibling agreement over all find / insert / emplace overloads) - otherwise the element the accessor held stays locked for ever.'
 EXPLANATION += ' D5 also: between insert_new_node and the return (within the attempt that linked the node) no call that may allocate stands outside a try block - the thread that inserted gets to report it.'
 EXPLANATION += ' Added in the sixth (partial) seeding round: ' + 'D2 also: every value stored into an accessor\'s my_hash is a whole hash code (functor result, parameter, another accessor\'s my_hash, through locals) - never the result of masking or other arithmetic: erase(accessor) recomputes the bucket under the mask in force later.'
+EXPLANATION += ' D2 also: in rehash_bucket every operation of the user\'s hash_compare that runs after the new bucket was marked rehashed stands inside a try block whose handler takes the mark back (stores to the new bucket\'s node_list).'
 ASSUMPTIONS = ['instantiations: concurrent_hash_map<int,int> and <string,string> (explicit instantiation)', 'rw scoped lock model']
 ND = ['linearizability of the map operations', 'no loss across lazy rehash for all hash functions / growth schedules']
 
@@ -38,6 +39,7 @@ def run(facts, rep):
     d4_accessor_released_before_reuse(facts, rep)
     d5_no_failure_after_the_insertion(facts, rep)
     d2_accessor_keeps_the_full_hash(facts, rep)
+    d2_user_hash_after_the_rehash_mark(facts, rep)
 
 
 def witnesses(rep, tier):
@@ -523,3 +525,41 @@ def d2_accessor_keeps_the_full_hash(facts, rep):
                    ln=fn.n(s).get('ln'), key_extra='acc-hash|' + fn.p.split('::')[-1])
     if n < 1:
         raise AnalysisBroken('concurrent_hash_map: no assignment to an accessor\'s my_hash found')
+
+
+def d2_user_hash_after_the_rehash_mark(facts, rep):
+    """"no key is lost ... while buckets are rehashed lazily ... for all custom hash functions": rehash_bucket marks the new
+    bucket as rehashed FIRST (it must - D2: before the parent bucket is locked) and then calls the user's hash functor on every
+    node of the parent bucket to decide which ones move.  If that call throws, the new bucket stays marked although its nodes
+    are still in the parent bucket: every later lookup of those keys searches the (empty) new bucket - the keys are lost although
+    size() counts them.  Rule (K9): between the mark and the end of rehash_bucket no operation of the user's hash_compare runs
+    outside a try block whose handler takes the mark back (stores to the new bucket's node_list)."""
+    n = 0
+    for fn in facts.get(CHM + 'rehash_bucket'):
+        marks = [pos for pos, o in atomics_on(fn, 'node_list', kinds=('store',))]
+        if not marks:
+            raise AnalysisBroken('concurrent_hash_map::rehash_bucket: the rehashed mark was not found')
+        first = min(marks, key=lambda p: (fn.nodes[fn.elems(p[0])[p[1]]].get('ln') or 0))
+        reached, ex, par = fn.walk(first)
+        bad = []
+        for q in reached:
+            e = fn.elems(q[0])[q[1]]
+            if not isinstance(e, int):
+                continue
+            nd = fn.nodes[e]
+            if nd.get('k') == 'call' and nd.get('tp') and last_member(fn, nd.get('obj', -1)) == 'my_hash_compare':
+                if nd.get('tr') is None:
+                    bad.append(nd.get('ln'))
+                    continue
+                # guarded: the handler of that try takes the mark back (a store to node_list inside the handler)
+                catches = [c for c in fn.nodes if c and c.get('k') == 'catch' and c.get('try') == nd['tr']]
+                undone = any(o['kind'] == 'store' and last_member(fn, o['obj']) == 'node_list' and fn.nodes[o['s']].get('ca') in set(c['s'] for c in catches)
+                             for _, o in atomic_ops(fn))
+                if not undone:
+                    bad.append(nd.get('ln'))
+        n += 1
+        rep.ob('D2', 'K9', fn, 'no operation of the user\'s hash_compare runs unguarded after the new bucket was marked rehashed', not bad,
+               'my_hash_compare.hash() at line(s) %s runs after the mark: if it throws, the new bucket stays marked rehashed while its nodes are still '
+               'in the parent bucket - those keys are never found again (size() still counts them)' % sorted(set(bad)), key_extra='rehash-user-hash')
+    if n < 1:
+        raise AnalysisBroken('concurrent_hash_map::rehash_bucket not instantiated')
